@@ -155,7 +155,7 @@ func cmdCheck(args []string) int {
 		writeEvidence(id, opts, nil, nil, nil, nil, time.Since(t0).Seconds(), 1, []string{"load failure: " + err.Error()})
 		return 1
 	}
-	timeout := 20
+	timeout := 10
 	second := false
 	if opts.tier == "thorough" {
 		timeout = 120
